@@ -298,6 +298,40 @@ theorem pair_toObj (t : Ty) {sz buf : String} {Ts Tb : Tree} {nv bv : Val} {ft1 
 
 theorem length_snoc' (pre : Path) (nd : PathNode) : (pre ++ [nd]).length = pre.length + 1 := by simp
 
+/-- a size-prefixed byte buffer: the subtree is explicit -/
+theorem tpm2bBytes_builds {name szName bufName : String} {szP elem : Prim} (hne : szName ≠ bufName) {pre : Path}
+    {nd : PathNode} {sel : Option Int} {v : Val} {bs : List Byte} {evs : List SEv}
+    (h : spec (.tpm2bBytes name szName szP bufName elem) (pre ++ [nd]) sel v = some (bs, evs)) :
+    ∃ Ts Tb nv bv, v = .obj name false [(szName, nv), (bufName, bv)] ∧
+      BuildsAt nd (.dict [(szName, Ts), (bufName, Tb)]) (sstrip pre.length evs) ∧ (∀ ft, toObj enc ft Ts = some nv) ∧
+      toObj enc (.many (.prim elem)) Tb = some bv ∧ TopAvoid (encBuf enc) Ts := by
+  have hunder := spec_under _ _ _ _ _ _ h
+  simp only [spec] at h
+  split at h
+  · cases h
+  · rename_i nv bv hv
+    split at h
+    · rename_i nb ne n hsz hn
+      split at h
+      · cases h
+      · rename_i bb be hl
+        split at h
+        · simp only [Option.some.injEq, Prod.mk.injEq] at h
+          obtain ⟨_, rfl⟩ := h
+          obtain ⟨Ts, hTs, hTso, hTsa⟩ := prim_builds enc hsz
+          obtain ⟨Tb, hTb, hTbo, _⟩ := primList_builds enc hl
+          refine ⟨Ts, Tb, nv, bv, objPair_inv hv, ?_, hTso, hTbo, hTsa⟩
+          rw [List.cons_append, sstrip_cons]
+          apply buildsAt_node nd _ _ _ (by simp [stripE])
+          · have := under_heads hunder
+            rw [List.cons_append, sstrip_cons] at this
+            exact fun x hx => this x (List.mem_cons_of_mem _ hx)
+          · rw [strip_sstrip, sstrip_append, sstrip_shift]
+            rw [length_snoc'] at hTs hTb
+            exact pair_builds hTs hTb hne
+        · cases h
+    · cases h
+
 mutual
 theorem spec_builds : (t : Ty) → t.eo (encBuf enc) = true → ∀ (pre : Path) (nd : PathNode) (sel : Option Int) (v : Val)
     (bs : List Byte) (evs : List SEv), spec t (pre ++ [nd]) sel v = some (bs, evs) →
@@ -347,40 +381,16 @@ theorem spec_builds : (t : Ty) → t.eo (encBuf enc) = true → ∀ (pre : Path)
         simpa [Ty.top] using htop
   | .tpm2bBytes name szName szP bufName elem, heo, pre, nd, sel, v, bs, evs, h => by
     simp only [Ty.eo, decide_eq_true_eq] at heo
-    have hunder := spec_under _ _ _ _ _ _ h
-    simp only [spec] at h
-    split at h
-    · cases h
-    · rename_i nv bv hv
-      split at h
-      · rename_i nb ne n hsz hn
-        split at h
-        · cases h
-        · rename_i bb be hl
-          split at h
-          · simp only [Option.some.injEq, Prod.mk.injEq] at h
-            obtain ⟨_, rfl⟩ := h
-            obtain ⟨Ts, hTs, hTso, hTsa⟩ := prim_builds enc hsz
-            obtain ⟨Tb, hTb, hTbo, _⟩ := primList_builds enc hl
-            refine ⟨.dict [(szName, Ts), (bufName, Tb)], ?_, ?_, ?_⟩
-            · rw [List.cons_append, sstrip_cons]
-              apply buildsAt_node nd _ _ _ (by simp [stripE])
-              · have := under_heads hunder
-                rw [List.cons_append, sstrip_cons] at this
-                exact fun x hx => this x (List.mem_cons_of_mem _ hx)
-              · rw [strip_sstrip, sstrip_append, sstrip_shift]
-                rw [length_snoc'] at hTs hTb
-                exact pair_builds hTs hTb heo
-            · rw [objPair_inv hv]
-              exact pair_toObj enc (.tpm2bBytes name szName szP bufName elem) (ft1 := .one (.prim szP))
-                (ft2 := .many (.prim elem)) (by simp [Ty.attr]) (by simp [Ty.attr, heo]) (hTso _) hTbo hTsa
-            · intro htop sub hsub
-              cases hsub
-              simp only [Ty.top, Bool.and_eq_true, decide_eq_true_eq] at htop
-              simp only [List.map_cons, List.map_nil, List.mem_cons, List.not_mem_nil, or_false, not_or]
-              exact ⟨fun hb => htop.1 hb.symm, fun hb => htop.2 hb.symm⟩
-          · cases h
-      · cases h
+    obtain ⟨Ts, Tb, nv, bv, hv, hB, hTso, hTbo, hTsa⟩ := tpm2bBytes_builds enc heo h
+    refine ⟨.dict [(szName, Ts), (bufName, Tb)], hB, ?_, ?_⟩
+    · rw [hv]
+      exact pair_toObj enc (.tpm2bBytes name szName szP bufName elem) (ft1 := .one (.prim szP))
+        (ft2 := .many (.prim elem)) (by simp [Ty.attr]) (by simp [Ty.attr, heo]) (hTso _) hTbo hTsa
+    · intro htop sub hsub
+      cases hsub
+      simp only [Ty.top, Bool.and_eq_true, decide_eq_true_eq] at htop
+      simp only [List.map_cons, List.map_nil, List.mem_cons, List.not_mem_nil, or_false, not_or]
+      exact ⟨fun hb => htop.1 hb.symm, fun hb => htop.2 hb.symm⟩
   | .tpm2b name szName szP bufName body, heo, pre, nd, sel, v, bs, evs, h => by
     simp only [Ty.eo, Bool.and_eq_true, decide_eq_true_eq] at heo
     have hunder := spec_under _ _ _ _ _ _ h
